@@ -123,6 +123,12 @@ class RustFacts:
         self.statics: dict[str, dict] = {}
         for rel, items in self.files.items():
             self._index(rel, items)
+        self.inline_log: list[str] = []
+        ref_file = Path(__file__).parent / "reference_functions.json"
+        reference = set(json.loads(ref_file.read_text()).get(
+            "rust_functions", []))
+        if reference:
+            self.inline_log = inline_helpers(self, reference)
 
     def _index(self, rel: str, items) -> None:
         for it in items or []:
@@ -155,3 +161,212 @@ class RustFacts:
         return [f for k, f in self.functions.items()
                 if "::tests::" not in k and not f.qual.startswith("tests::")
                 and "shard_generated" not in k]
+
+
+# ---------------------------------------------------------------------------
+# Normalisation by inlining (Rust side): functions that are not in the
+# reference decomposition (reference_functions.json, "rust_functions") are
+# helpers somebody extracted; their body is spliced into the call sites on
+# the syntax tree (parameters substituted, texts of rebuilt expressions
+# regenerated) so the rules see the shape they were confirmed on.
+
+def _retext(n) -> str:
+    """Token text of an expression node rebuilt from its children (spacing
+    is irrelevant: rules compare texts through norm())."""
+    if not isinstance(n, dict):
+        return ""
+    k = n.get("k")
+    if k == "Path":
+        return n["path"]
+    if k == "Field":
+        return f"{_retext(n['base'])}.{n['member']}"
+    if k == "Index":
+        return f"{_retext(n['base'])}[{_retext(n['index'])}]"
+    if k == "MethodCall":
+        return (f"{_retext(n['recv'])}.{n['method']}{n.get('turbofish') or ''}"
+                f"({', '.join(_retext(a) for a in n['args'])})")
+    if k == "Call":
+        return f"{_retext(n['func'])}({', '.join(_retext(a) for a in n['args'])})"
+    if k == "Ref":
+        return "&" + ("mut " if n.get("mutable") else "") + _retext(n["expr"])
+    if k == "Unary":
+        return f"{n['op']}{_retext(n['expr'])}"
+    if k == "Try":
+        return f"{_retext(n['expr'])}?"
+    if k == "Binary":
+        return f"{_retext(n['left'])} {n['op']} {_retext(n['right'])}"
+    if k == "Assign":
+        return f"{_retext(n['left'])} = {_retext(n['right'])}"
+    if k == "Tuple":
+        return "(" + ", ".join(_retext(a) for a in n["elems"]) + ")"
+    if k == "Cast":
+        return f"{_retext(n['expr'])} as {n['ty']}"
+    if k == "Lit":
+        return n["value"]
+    return n.get("text", "")
+
+
+_RETEXT_KINDS = {"Path", "Field", "Index", "MethodCall", "Call", "Ref", "Unary",
+                 "Try", "Binary", "Assign", "Tuple", "Cast"}
+
+
+def _substitute(node, mapping: dict[str, dict]):
+    """Deep copy of `node` with Path nodes naming a parameter replaced by
+    the argument node; returns (copy, changed)."""
+    import copy as _copy
+    if isinstance(node, list):
+        out, ch = [], False
+        for x in node:
+            y, c = _substitute(x, mapping)
+            out.append(y)
+            ch = ch or c
+        return out, ch
+    if not isinstance(node, dict):
+        return node, False
+    if node.get("k") == "Path" and node.get("path") in mapping:
+        return _copy.deepcopy(mapping[node["path"]]), True
+    if node.get("k") == "Closure":
+        # closure parameters shadow
+        shadow = {p.get("name") for p in walk(node.get("inputs"))
+                  if isinstance(p, dict) and p.get("k") == "PIdent"}
+        mapping = {k: v for k, v in mapping.items() if k not in shadow}
+    out = {}
+    changed = False
+    for key, v in node.items():
+        if isinstance(v, (dict, list)):
+            out[key], c = _substitute(v, mapping)
+            changed = changed or c
+        else:
+            out[key] = v
+    if changed and out.get("k") in _RETEXT_KINDS:
+        out["text"] = _retext(out)
+    elif changed and "text" in out:
+        # statement / compound node: patch the text by plain replacement of
+        # parameter identifiers is not reliable; rebuild from the expression
+        # when there is exactly one
+        inner = out.get("expr") or out.get("init")
+        if isinstance(inner, dict) and out.get("k") in ("ExprStmt", ):
+            out["text"] = _retext(inner) + (";" if out.get("semi") else "")
+    return out, changed
+
+
+def _has_return(body) -> bool:
+    return any(kind(n, "Return") for n in walk_no_closure(body))
+
+
+def _last_segment(path: str) -> str:
+    p = path.replace(" ", "")
+    # drop turbofish / generic arguments
+    out, depth = "", 0
+    for ch in p:
+        if ch == "<":
+            depth += 1
+        elif ch == ">":
+            depth -= 1
+        elif depth == 0:
+            out += ch
+    return out.split("::")[-1]
+
+
+def inline_helpers(facts: "RustFacts", reference: set[str]) -> list[str]:
+    """Inline every non-reference, non-test function into its callers.
+    Returns a log; helpers that were inlined and are no longer mentioned are
+    removed from facts.functions."""
+    log: list[str] = []
+    for _round in range(3):
+        helpers: dict[str, RustFn] = {}
+        names_seen: dict[str, int] = {}
+        for key, f in facts.functions.items():
+            names_seen[f.name] = names_seen.get(f.name, 0) + 1
+        for key, f in facts.functions.items():
+            if key in reference or "::tests::" in key or \
+                    f.qual.startswith("tests::") or "shard_generated" in key:
+                continue
+            if names_seen[f.name] != 1 or _has_return(f.body):
+                continue
+            if any(kind(n, "Call") and _last_segment(text(n["func"])) == f.name
+                   or kind(n, "MethodCall") and n["method"] == f.name
+                   for n in walk(f.body)):
+                continue  # recursive
+            helpers[f.name] = f
+        if not helpers:
+            break
+        changed_any = False
+
+        def params_of(h: RustFn):
+            ps = []
+            for p in h.node.get("params", []):
+                nm = p["name"].replace("mut ", "").strip()
+                ps.append(nm)
+            return ps
+
+        def tx(node):
+            nonlocal changed_any
+            if isinstance(node, list):
+                return [tx(x) for x in node]
+            if not isinstance(node, dict):
+                return node
+            node = {k: (tx(v) if isinstance(v, (dict, list)) else v)
+                    for k, v in node.items()}
+            h = None
+            args = None
+            if node.get("k") == "MethodCall" and node["method"] in helpers:
+                h = helpers[node["method"]]
+                ps = params_of(h)
+                if ps[:1] == ["self"] and len(node["args"]) == len(ps) - 1:
+                    args = [node["recv"]] + node["args"]
+                else:
+                    h = None
+            elif node.get("k") == "Call" and kind(node.get("func"), "Path") and \
+                    _last_segment(node["func"]["path"]) in helpers:
+                h = helpers[_last_segment(node["func"]["path"])]
+                ps = params_of(h)
+                if len(node["args"]) == len(ps):
+                    args = node["args"]
+                else:
+                    h = None
+            if h is None or args is None:
+                return node
+            ps = params_of(h)
+            if any(not p.isidentifier() for p in ps):
+                return node
+            mapping = dict(zip(ps, args))
+            # an argument passed by reference to a `&T` parameter is used
+            # through auto-deref in the body: substitute the referent
+            for p, a in list(mapping.items()):
+                if kind(a, "Ref"):
+                    mapping[p] = a["expr"]
+            body, _ = _substitute(h.body, mapping)
+            changed_any = True
+            log.append(f"{h.qual} into a caller at line {node.get('line')}")
+            return {"k": "Block", "line": node.get("line"),
+                    "text": node.get("text", ""), "stmts": body,
+                    "inlined": h.qual}
+
+        used: set[str] = set()
+        for key, f in list(facts.functions.items()):
+            if f.name in helpers and facts.functions.get(key) is helpers[f.name]:
+                # helpers are themselves transformed (nested helpers)
+                pass
+            new_body = tx(f.body)
+            f.body = new_body
+            f.node["body"] = new_body
+        if not changed_any:
+            break
+        # drop helpers nobody mentions any more
+        for name, h in helpers.items():
+            mentioned = False
+            for key, f in facts.functions.items():
+                if f is h:
+                    continue
+                for n in walk(f.body):
+                    if kind(n, "MethodCall") and n["method"] == name and \
+                            not n.get("inlined"):
+                        mentioned = True
+                    if kind(n, "Path") and _last_segment(n["path"]) == name:
+                        mentioned = True
+            if not mentioned:
+                for key in [k for k, f in facts.functions.items() if f is h]:
+                    del facts.functions[key]
+                    log.append(f"removed inlined helper {h.qual}")
+    return log
